@@ -192,6 +192,98 @@ def shard_mutate(shard):
     return part
 
 
+HIST_OPS = ["bytes", "len", "str", "cstructs", "app=0", "app=65535", "instrs=A", "instrs=B", "instrs=[]", "append", "setitem0",
+            "instantiate"]
+
+
+def _hist_reps(flav: str):
+    """one tabled instruction per distinct operand shape: (real instruction factory, reference bytes)"""
+    f = codec.flavour(flav)
+    seen, out = set(), []
+    for mn, (opcode, kinds) in wiretable.FLAVOURS[flav].items():
+        cls = f.name_map.get(mn)
+        if cls is None or tuple(kinds) in seen:
+            continue
+        seen.add(tuple(kinds))
+        lk = wiretable.leaf_kinds(kinds)
+        lv = codec.background_high(lk)
+        out.append((cls, kinds, lv, codec.ref_encode_instr(opcode, lk, lv).ljust(7, b"\0")))
+    return out
+
+
+def run_history(flav: str, ops, part, reps=None) -> None:
+    """One Subroutine object through a sequence of observations and mutations; the bytes it then produces must be the published
+    layout of the state it then has (header | 7-byte commands), computed by the reference encoder."""
+    from netqasm.lang.subroutine import Subroutine
+    reps = reps or _hist_reps(flav)
+
+    def mk(i):
+        cls, kinds, lv, ref = reps[i % len(reps)]
+        return codec.make_instr(cls, kinds, lv), ref
+
+    case = {"flavour": flav, "history": list(ops)}
+    app, body = 7, [mk(0)[1]]
+    try:
+        sub = Subroutine(instructions=[mk(0)[0]], app_id=7, netqasm_version=(1, 2))
+        for op in ops:
+            if op == "bytes":
+                bytes(sub)
+            elif op == "len":
+                len(sub)
+            elif op == "str":
+                str(sub)
+            elif op == "cstructs":
+                sub.cstructs
+            elif op.startswith("app="):
+                app = int(op[4:])
+                sub.app_id = app
+            elif op == "instrs=A":
+                sub.instructions = [mk(1)[0], mk(2)[0]]
+                body = [mk(1)[1], mk(2)[1]]
+            elif op == "instrs=B":
+                sub.instructions = [mk(3)[0]]
+                body = [mk(3)[1]]
+            elif op == "instrs=[]":
+                sub.instructions = []
+                body = []
+            elif op == "append":
+                sub.instructions.append(mk(4)[0])
+                body = body + [mk(4)[1]]
+            elif op == "setitem0":
+                if body:
+                    sub.instructions[0] = mk(5)[0]
+                    body = [mk(5)[1]] + body[1:]
+            elif op == "instantiate":
+                app = 3
+                sub.instantiate(3, {})
+        raw = bytes(sub)
+    except Exception as exc:
+        add_violation(part, f"history-raises/{flav}", f"{type(exc).__name__}: {exc}", case)
+        return
+    want = codec.ref_header((1, 2), app) + b"".join(body)
+    if raw != want:
+        where = "header" if raw[:4] != want[:4] else "commands"
+        add_violation(part, f"history/{flav}/{where}", f"after {list(ops)} the subroutine (app id {app}, {len(body)} instructions) does "
+                      f"not encode to the published layout of that state", case, {"bytes": raw, "expected": want})
+
+
+def shard_history(shard):
+    _, flav, first, depth = shard
+    part = new_part()
+    reps = _hist_reps(flav)
+    n = 0
+    for d in range(0, depth):
+        for rest in itertools.product(HIST_OPS, repeat=d):
+            n += 1
+            run_history(flav, (first,) + rest, part, reps)
+    part["evals"] += n
+    part["distinct"] += n
+    count(part, "histories", n)
+    if first == "bytes":
+        add_sample(part, {"flavour": flav, "history": ["bytes", "instantiate", "bytes"], "oracle": "final bytes = reference layout of the final state"})
+    return part
+
+
 def shard_header(shard):
     _, flav, which, lo, hi = shard
     part = new_part()
@@ -228,7 +320,7 @@ def shard_untabled(shard):
 
 def _dispatch(shard):
     return {"instr": shard_instr, "header": shard_header, "untabled": shard_untabled, "product": shard_product,
-            "coexist": shard_coexist, "mutate": shard_mutate}[shard[0]](shard)
+            "coexist": shard_coexist, "mutate": shard_mutate, "history": shard_history}[shard[0]](shard)
 
 
 def run(ctx):
@@ -236,6 +328,8 @@ def run(ctx):
     for flav in FLAVOURS:
         shards.append(("untabled", flav))
         shards.append(("mutate", flav))
+        for op in HIST_OPS:
+            shards.append(("history", flav, op, 3 if ctx.tier == "quick" else 4))
         for mn in wiretable.FLAVOURS[flav]:
             shards.append(("instr", flav, mn))
             shards.append(("product", flav, mn, 70000 if ctx.tier == "quick" else 2 ** 22 + 1))
@@ -252,9 +346,13 @@ def run(ctx):
     for flav in FLAVOURS:
         ctx.require(f"mutate/{flav}", 1)
     ctx.require("product-points", 10000)
+    ctx.require("histories", 3 * len(HIST_OPS) * (1 + len(HIST_OPS) + len(HIST_OPS) ** 2))
 
 
 def replay(case, part):
+    if "history" in case:
+        run_history(case["flavour"], case["history"], part)
+        return
     if case.get("mutate"):
         part["violations"].extend(shard_mutate(("mutate", case["flavour"]))["violations"])
         return
